@@ -56,8 +56,56 @@ def run(ctx, run):
     _debug_after_geometry(ctx, run)
     _payload_once(ctx, run)
     _constructor_reads_own_writes(ctx, run, P.need("vbi3_bit_slicer_set_params", BS))
+    _legacy_payload_unit(ctx, run)
     from .. import sweep
     sweep.run(ctx, run, ["src/raw_decoder.c", "src/bit_slicer.c", "src/decoder.c", "src/sampling_par.c"], SWEEP_TRUSTED, 110, 1)
+
+def _legacy_payload_unit(ctx, run):
+    """The legacy slicer keeps d->payload in octets for the octet modes (endian 0, 1) and in *bits* for the bitwise modes
+    (endian 2, 3).  Wherever decoder.c turns the payload into a bit count by scaling it with 8, both bitwise modes must be
+    excluded on the way there - otherwise that mode samples and stores eight times the configured payload."""
+    P = ctx.prog
+    n = 0
+    for f in P.funcs:
+        if f.file != DEC or f.cfg_failed:
+            continue
+        for node, e in enumerate(f.exprs):
+            if e["k"] != "bin" or e["op"] not in ("*", "<<"):
+                continue
+            k = ex.const(f, e["c"][1])
+            if not ((e["op"] == "*" and k == 8) or (e["op"] == "<<" and k == 3)):
+                continue
+            if not any(f.exprs[m]["k"] == "mem" and f.exprs[m]["member"] == "payload" and f.exprs[m].get("in") == "vbi_bit_slicer"
+                       for m in ex.walk(f, e["c"][0])):
+                continue
+            pos = flow.elem_pos(f).get(node)
+            if pos is None or pos[0] not in f.reachable_blocks():
+                continue
+            n += 1
+            run.touch(f)
+            ats = atoms.dominating_atoms(f, pos[0])
+            F = "vbi_bit_slicer.endian"
+            excl = set()
+            for a in ats:
+                if not a.L.has(F) or a.R is None or a.R.const is None:
+                    continue
+                c = a.R.const
+                for v in (2, 3):
+                    if (a.rel == "<" and v >= c) or (a.rel == "<=" and v > c) or (a.rel == "==" and v != c) or (a.rel == "!=" and v == c) \
+                            or (a.rel == ">" and v <= c) or (a.rel == ">=" and v < c):
+                        excl.add(v)
+            key = "RF-UNIT:%s:legacy-payload-scaled" % f.name
+            if excl == {2, 3}:
+                run.holds("RF-UNIT", key, "`%s` only in the octet modes" % ex.pretty(f, node)[:40], ex.loc(f, node))
+            else:
+                run.violation("RF-UNIT", key, "`%s` turns d->payload into a bit count although endian == %s is not excluded on the way "
+                              "there: in that mode d->payload already counts bits, so eight times the payload is sampled and stored"
+                              % (ex.pretty(f, node)[:40], " / ".join(str(v) for v in sorted({2, 3} - excl))), ex.loc(f, node),
+                              witness={"function": f.name})
+    if n == 0:
+        run.holds("RF-UNIT", "RF-UNIT:decoder.c:legacy-payload-scaled", "decoder.c never scales d->payload by 8 (each mode has its own "
+                  "loop over its own unit)", DEC, nontrivial=False)
+
 
 def _constructor_reads_own_writes(ctx, run, f):
     """vbi3_bit_slicer_set_params() configures *bs from its arguments alone: a field of *bs it reads has been stored
